@@ -377,7 +377,7 @@ def run_compose_directed(chk, n):
                {"name": "note", "data": [], "template": [{"t": "extends", "parent": "note_base"}] +
                 ([blk(b2, [T("N!")])] if r.random() < 0.5 else [])},
                {"name": "box", "data": [], "template": [T("["), slot(), T("]")]}]
-        schema = r.randrange(5)
+        schema = r.randrange(7)
         kids = [comp(r.choice(["card", "plaincard", "note"])) for _ in range(r.randint(2, 3))]
         if schema == 0:      # siblings inside a parent that has no blocks
             page = [comp("box", kids)]
@@ -387,9 +387,24 @@ def run_compose_directed(chk, n):
             page = [comp("box", [{"t": "for", "x": "v", "e": tplgen.var("xs"), "body": kids[:1]}] + kids[1:])]
         elif schema == 3:    # parent without blocks inside a parent without blocks
             page = [comp("box", [comp("box", kids), T("|")] + kids[:1])]
-        else:                # the page itself extends a base with other block names
+        elif schema == 4:    # the page itself extends a base with other block names
             fam["page_base"] = [T("P("), blk("pagebody", [T("pb")]), T(")")]
             page = [{"t": "extends", "parent": "page_base"}, blk("pagebody", [comp("box", kids)])]
+        elif schema == 5:    # a block INSIDE fill content of the base page, overridden (with block.super) by the child page
+            fam["page_base"] = [T("P("), comp("box", [T("a"), blk("foo", [T("MID")]), T("b")]), T(")")]
+            fam["page_mid"] = [{"t": "extends", "parent": "page_base"}] + ([blk("foo", [T("M2+"), {"t": "super"}])] if r.random() < 0.5 else [])
+            page = [{"t": "extends", "parent": "page_mid"}, blk("foo", [T("PAGE+"), {"t": "super"}])]
+        else:                # three levels; the block sits in a fill inside the middle template's override, and the
+            #                      component forwards that fill into a nested component (slot pass-through)
+            fill_ = lambda n, body: {"t": "fill", "name": tplgen.lit(n), "data": None, "dflt": None, "body": body}
+            nslot = lambda n, body: {"t": "slot", "name": tplgen.lit(n), "default": False, "required": False, "data": [], "body": body}
+            lib.append({"name": "inner", "data": [], "template": [T("("), nslot("b", [T("B-DEFAULT")]), T(")")]})
+            lib.append({"name": "outer", "data": [], "template": [comp("inner", [fill_("b", [nslot("a", [T("A-DEFAULT")])])])]})
+            direct = r.random() < 0.3
+            fam["page_base"] = [T("P("), blk("body", [T("BODY")]), T(")")]
+            fam["page_mid"] = [{"t": "extends", "parent": "page_base"},
+                               blk("body", [comp("inner" if direct else "outer", [fill_("b" if direct else "a", [T("["), blk("foo", [T("MID")]), T("]")])])])]
+            page = [{"t": "extends", "parent": "page_mid"}, blk("foo", [T("PAGE+"), {"t": "super"}])]
         famprog = {"isolated": r.random() < 0.5, "lib": lib, "entry": {"page": page}, "ctx": [["xs", {"l": [tplgen.sval("1"), tplgen.sval("2")]}]], "raise": None}
         family_json = [[k, v] for k, v in fam.items()] + [[d["name"], d["template"]] for d in lib] + [["__page__", page]]
         roots = [d["name"] for d in lib] + ["__page__"]
